@@ -170,6 +170,10 @@ var c08Named = map[string]struct {
 }
 
 func c08Case(c *core.Ctx, id string) {
+	if strings.HasPrefix(id, "gprog/") {
+		c08GenCase(c, id)
+		return
+	}
 	base := filepath.Join(c.Scratch, fmt.Sprintf("c08-%d", os.Getpid()))
 	os.RemoveAll(base)
 	defer os.RemoveAll(base)
@@ -327,7 +331,10 @@ func runC08(c *core.Ctx) {
 	c.SetRule("generated BUILD files combining 1-6 of 28 features (recursion, mutual recursion, nested recursive closures, closures over cells, mutable/immutable defaults, lambdas, " +
 		"comprehensions, every predeclared value, universals, target objects, 5000-element lists, 100 kB strings, deep nesting, big ints, floats, sets, tuples of every size class) " +
 		"built in fresh child processes: first build, second build of identical text (nothing may run, stamps equal), identical text in another directory (stamps equal), then up to 3 " +
-		"mutations of something the function references (each must re-execute the target); fatal errors are attributed through the journal; named scenarios for exotic constructs; " +
+		"mutations of something the function references (each must re-execute the target); grammar-generated programs (gprog: nested defs, lambdas, comprehensions, defaults, keyword-only " +
+		"parameters, *args/**kwargs, recursion, closures over locals, same-named nested functions, globals of every literal type) whose every literal/operator/default/callee/global reference " +
+		"is a slot: up to 4 slot mutations each, a mutated slot owned by something reachable from the target must re-execute it; " +
+		"fatal errors are attributed through the journal; named scenarios for exotic constructs; " +
 		"non-trivial = every program; distinct = distinct (program, mutation)")
 	c.Assume("an edit that changes nothing the function references (comments, unrelated code) is C02's business, not C08's")
 	var ids []string
@@ -338,6 +345,9 @@ func runC08(c *core.Ctx) {
 	n := c.N(300, 8000)
 	for i := 0; i < n; i++ {
 		ids = append(ids, fmt.Sprintf("prog/%d", i))
+	}
+	for i, ng := 0, c.N(150, 6000); i < ng; i++ {
+		ids = append(ids, fmt.Sprintf("gprog/%d", i))
 	}
 	var want []string
 	for _, id := range ids {
